@@ -7,6 +7,10 @@ from vt.checks import frag
 from vt.gen import teal as T
 
 
+class CaseTimeout(BaseException):
+    pass
+
+
 class FragCheck:
     def __init__(self, prop, evaluate, profiles, sizes, rule, classify=None, cap=(900, 1500), pair_mode="reps",
                  want_execs=True, extra_cases=None):
@@ -20,6 +24,7 @@ class FragCheck:
         self.pair_mode = pair_mode
         self.want_execs = want_execs
         self.extra_cases = extra_cases  # callable(rng) -> list of (prog, version, features) run in batch 0
+        self.case_timeout = 30
 
     def plan(self, tier, seed, scale=1.0):
         nb, per = self.sizes[tier]
@@ -36,10 +41,32 @@ class FragCheck:
         return self.profiles[-1][1], self.profiles[-1][2]
 
     def one(self, prog, version, feats, rng, ctr, out, tier, stratum):
+        """One case under a wall-clock watchdog; a firing watchdog makes the case inconclusive, never a violation."""
+        import signal
+
+        def _alarm(*_a):
+            raise CaseTimeout()
+
+        signal.signal(signal.SIGALRM, _alarm)
+        signal.alarm(self.case_timeout)
+        try:
+            self._one(prog, version, feats, rng, ctr, out, tier, stratum)
+        except CaseTimeout:
+            ctr["case_watchdog_fired"] += 1
+            out["inconclusive"] += 1
+            if len(out["notes"]) < 3:
+                src, _ = T.render(prog, version)
+                out["notes"].append({"watchdog": "case exceeded %ds" % self.case_timeout, "src": src[:3000]})
+        finally:
+            signal.alarm(0)
+
+    def _one(self, prog, version, feats, rng, ctr, out, tier, stratum):
         cap = self.cap[0] if tier == "quick" else self.cap[1]
         try:
             case = frag.build(prog, version, rng, cap=cap, pair_mode=self.pair_mode,
                               want_execs=self.want_execs, features=feats)
+        except CaseTimeout:
+            raise
         except RecursionError:
             ctr["recursion_error"] += 1
             out["inconclusive"] += 1
